@@ -27,6 +27,9 @@ def run(pid, tier, replay):
         if pid == "C09":
             from . import net_c09
             return net_c09.run(tier)
+        if pid == "C12":
+            from . import net_c12
+            return net_c12.run(tier)
         print(f"unknown property {pid}")
         return 2
     except C.BuildError as e:
